@@ -139,7 +139,7 @@ func ruleP04ResumePrevious(p *Prog, r *Report) {
 	r.check(okStore, rule, "first-earlier", p.pos(cl.Pos()), "the first record strictly before the target date is taken and the search stops", "the previous record is not the first record (in that order) whose date is strictly before the target date")
 	// and it never yields a reconciler
 	for _, ret := range returnsOf(cl) {
-		if !isNilConst(ret.Results[0]) {
+		if !isNilConst(retResult(ret, 0)) {
 			r.bad(rule, "pass-through", p.instrPos(ret), "the spy creator can yield a reconciler")
 		}
 	}
@@ -212,8 +212,8 @@ func ruleP07MergeOrderAll(p *Prog, r *Report) {
 	mapParse := p.method("klog/parser/engine", "SerialParser", "mapParse")
 	var vals, blks ssa.Value
 	for _, ret := range returnsOf(parse) {
-		if !isNilConst(ret.Results[0]) {
-			vals, blks = ret.Results[0], ret.Results[1]
+		if !isNilConst(retResult(ret, 0)) {
+			vals, blks = retResult(ret, 0), retResult(ret, 1)
 		}
 	}
 	if vals == nil || mapParse == nil {
